@@ -2491,3 +2491,127 @@ mod tests {
         assert_eq!(boundary, Some(value + GROUP_DATA_CTR_EPOCH));
     }
 }
+
+/// Read-only snapshots of the session table for the out-of-tree verification
+/// harness. Compiled only with the `verif` feature; adds no behaviour.
+#[cfg(feature = "verif")]
+pub mod verif {
+    use super::*;
+    use crate::transport::exchange::{InitiatorState, ResponderState};
+
+    /// A snapshot of one exchange slot.
+    #[derive(Debug, Clone, PartialEq, Eq)]
+    pub struct ExchSnapshot {
+        pub exch_id: u16,
+        /// `true` if the local node is the initiator of the exchange
+        pub initiator: bool,
+        /// 0 = owned, 1 = accept pending, 2 = dropped
+        pub state: u8,
+        /// Counter of the message awaiting acknowledgement, with the retransmission count
+        pub retrans: Option<u32>,
+        /// Counter of the peer message we still have to acknowledge
+        pub ack_pending: Option<u32>,
+        pub rx_pending: bool,
+    }
+
+    /// A snapshot of one session.
+    #[derive(Debug, Clone, PartialEq, Eq)]
+    pub struct SessionSnapshot {
+        pub id: u32,
+        pub peer_addr: Address,
+        pub local_nodeid: u64,
+        pub peer_nodeid: Option<u64>,
+        pub dec_key: [u8; crate::crypto::AEAD_CANON_KEY_LEN],
+        pub enc_key: [u8; crate::crypto::AEAD_CANON_KEY_LEN],
+        pub local_sess_id: u16,
+        pub peer_sess_id: u16,
+        pub msg_ctr: u32,
+        pub rx_max_ctr: u32,
+        pub rx_bitmap: u16,
+        pub mode: SessionMode,
+        pub exchanges: Vec<Option<ExchSnapshot>, MAX_EXCHANGES>,
+        pub last_use_ticks: u64,
+        pub expired: bool,
+        pub reserved: bool,
+    }
+
+    impl Session {
+        pub fn verif_snapshot(&self) -> SessionSnapshot {
+            let (rx_max_ctr, rx_bitmap) = self.rx_ctr_state.verif_state();
+
+            let mut exchanges = Vec::new();
+            for exch in &self.exchanges {
+                let _ = exchanges.push(exch.as_ref().map(|exch| ExchSnapshot {
+                    exch_id: exch.exch_id,
+                    initiator: matches!(exch.role, Role::Initiator(_)),
+                    state: match exch.role {
+                        Role::Initiator(InitiatorState::Owned)
+                        | Role::Responder(ResponderState::Owned) => 0,
+                        Role::Responder(ResponderState::AcceptPending) => 1,
+                        Role::Initiator(InitiatorState::Dropped)
+                        | Role::Responder(ResponderState::Dropped) => 2,
+                    },
+                    retrans: exch.mrp.retrans.as_ref().map(|r| r.get_msg_ctr()),
+                    ack_pending: exch
+                        .mrp
+                        .ack
+                        .as_ref()
+                        .filter(|a| !a.acknowledged)
+                        .map(|a| a.msg_ctr),
+                    rx_pending: exch.mrp.received_at.is_some(),
+                }));
+            }
+
+            SessionSnapshot {
+                id: self.id,
+                peer_addr: self.peer_addr,
+                local_nodeid: self.local_nodeid,
+                peer_nodeid: self.peer_nodeid,
+                dec_key: *self.dec_key.access(),
+                enc_key: *self.enc_key.access(),
+                local_sess_id: self.local_sess_id,
+                peer_sess_id: self.peer_sess_id,
+                msg_ctr: self.msg_ctr,
+                rx_max_ctr,
+                rx_bitmap,
+                mode: self.mode.clone(),
+                exchanges,
+                last_use_ticks: self.last_use.as_ticks(),
+                expired: self.expired,
+                reserved: self.reserved,
+            }
+        }
+    }
+
+    /// The receive-window state a freshly created session starts with.
+    pub fn verif_new_session_rx_state() -> RxCtrState {
+        Session::new(0, 0, false, Address::new(), None, 0, 0, 0).rx_ctr_state
+    }
+
+    impl Sessions {
+        /// Iterate over the snapshots of all sessions in the table.
+        pub fn verif_snapshots(&self) -> impl Iterator<Item = SessionSnapshot> + '_ {
+            self.sessions.iter().map(|s| s.verif_snapshot())
+        }
+
+        /// The exchange id the next initiated exchange would be tried with.
+        pub fn verif_next_exch_id(&self) -> u16 {
+            self.next_exch_id
+        }
+
+        /// Force the exchange id allocator position (to reach the 16-bit wrap quickly).
+        pub fn verif_set_next_exch_id(&mut self, id: u16) {
+            self.next_exch_id = id;
+        }
+
+        /// The session id the next session would be tried with.
+        pub fn verif_next_sess_id(&self) -> u16 {
+            self.next_sess_id
+        }
+
+        /// Force the session id allocator position (to reach the 16-bit wrap quickly).
+        pub fn verif_set_next_sess_id(&mut self, id: u16) {
+            self.next_sess_id = id;
+        }
+    }
+}
